@@ -311,6 +311,7 @@ pub fn gen_cfg(i: usize) -> crate::progen::Cfg {
         generic_fn_values: false,
         overlapping_impls: i % 4 < 2,
         result_only_generics: i % 4 != 1,
+        cov_shapes: i % 5 == 2,
         finite_polyrec: i % 3 == 0,
         ..Default::default()
     }
@@ -419,6 +420,29 @@ pub fn main(args: &util::Args) {
             let mut o2 = String::new();
             emit(&id, None, &st, &mut o2);
             out.push_str(&o2);
+        }
+    }
+    // ---- hand-written ill-typed witnesses kept as files (corpus/C03/neg/*.gom): typer diagnostics no generated
+    // program reaches (tools/coverage_audit.py, class b); each must be rejected by the typer
+    {
+        // (a witness is a file, or a project directory `<name>/main.gom` + package sub-directories compiled where it lives)
+        let mut files: Vec<_> = std::fs::read_dir(util::verif_root().join("corpus/C03/neg"))
+            .map(|rd| rd.filter_map(|e| e.ok().map(|e| e.path())).filter(|p| p.extension().is_some_and(|x| x == "gom") || p.join("main.gom").is_file()).collect())
+            .unwrap_or_default();
+        files.sort();
+        for f in files {
+            let project = f.is_dir();
+            let entry = if project { f.join("main.gom") } else { f.clone() };
+            let Ok(src) = std::fs::read_to_string(&entry) else { continue };
+            let id = format!("illc:{}", f.file_stem().unwrap().to_string_lossy());
+            let st = if project { c07::run_stages(&entry, &src, false) } else { run_in(&dir, &src) };
+            let (outcome, stage, msg) = match &st.stop {
+                None => ("accepted", "", String::new()),
+                Some((k, stage, m)) => (if *k == "reject" { "rejected" } else { "panic" }, *stage, m.clone()),
+            };
+            *kinds_total.entry("corpus-neg".to_string()).or_default() += 1;
+            writeln!(out, "{}\tSRC\t{}", id, esc_line(&src)).unwrap();
+            writeln!(out, "{}\tILL\tcorpus-neg\t{}\t{}\t{}\t{}", id, f.file_stem().unwrap().to_string_lossy(), outcome, stage, esc_line(&msg)).unwrap();
         }
     }
     // ---- rigid type parameters: one ill-typed hole inside a generic function (calls of function-typed
